@@ -436,7 +436,9 @@ def run_seq_job(job, ops, run_case, depth=None):
     from vf import seqexplore
     acc = Acc(job)
     depth = depth or (2 if job["tier"] == "quick" else 3)
-    ops = list(ops) + [("env-logging", {"level": "DEBUG"})]      # environment operation: see seqexplore.env_op
+    ops = list(ops) + [("env-logging", {"level": "DEBUG"})]      # environment operations: see seqexplore.env_op
+    if job.get("env_decimal"):
+        ops.append(("env-decimal", {"prec": 9}))
     sh, nsh = job["shard"]
     n = seqexplore.explore(acc, ops, run_case, depth, scratch_dir(), first_filter=lambda i: i % nsh == sh)
     acc.ob("history_sequences", n)
